@@ -271,4 +271,18 @@ def precedence(W, p):
     except SystemExit:
         ok = True
     W.prove(ok, "path-precedence", dict(case="missing module -> SystemExit"))
+    # grid and forcing sections that are one shared mapping (what a YAML alias `grid: *gf` yields): the user's file serves both
+    shared = dict(module=str(PLUG / "pgridforce.py"), u=W.frac(1, 100), v=0, w=0, temp=None, filename=str(tmp / "unused.nc"))
+    cfg = base_config(W, start=T0, stop=T0 + 2 * DT, dt=DT, release_file=tmp / "r.rls", output=dict(module=str(PLUG / "pout.py"), output_period=DT, log=[]))
+    cfg["grid"] = shared
+    cfg["forcing"] = shared
+    model = run_main(W, cfg)
+    names = (type(model.grid).__module__, type(model.force).__module__)
+    W.prove(all("pgridforce" in n for n in names), "path-precedence", dict(case="one mapping shared by the grid and forcing sections", loaded=names))
+    X = W.tolist(model.state.X)
+    W.prove(len(X) == 1 and W.truth(W.eq(X[0], x0 + 2 * W.frac(6, 100))), "path-precedence", dict(case="shared mapping: the particle is moved by the user's forcing (0.06 cells per step)"))
+    # the same configuration object used for a second run loads the same modules again
+    model2 = run_main(W, cfg)
+    names2 = (type(model2.grid).__module__, type(model2.force).__module__, type(model2.ibm).__module__)
+    W.prove(all("pgridforce" in n for n in names2[:2]) and "pibm" in names2[2], "path-precedence", dict(case="second run from the same configuration", loaded=names2))
     return ("precedence",)
